@@ -11,7 +11,8 @@ fn mutate(rng: &mut Rng, wasm: &[u8]) -> (Vec<u8>, &'static str) {
     if w.len() < 10 {
         return (w, "none");
     }
-    match rng.below(9) {
+    match rng.below(11) {
+        9 | 10 => body_edit(rng, &w),
         0 => {
             let n = rng.range(0, (w.len() - 1) as u64) as usize;
             w.truncate(n);
@@ -90,6 +91,93 @@ fn mutate(rng: &mut Rng, wasm: &[u8]) -> (Vec<u8>, &'static str) {
             (w, "unknown-section")
         }
     }
+}
+
+fn leb(mut n: usize, out: &mut Vec<u8>) {
+    loop {
+        let b = (n & 0x7f) as u8;
+        n >>= 7;
+        if n == 0 {
+            out.push(b);
+            break;
+        }
+        out.push(b | 0x80);
+    }
+}
+
+/// structure-aware edit of one function body: a short, well-encoded operator snippet is inserted
+/// after the final `end`, just before it, or right after the local declarations; all size fields
+/// are recomputed, so the module is well-formed at the section level and wrong only (if at all) at
+/// the level the operator validator decides
+fn body_edit(rng: &mut Rng, w: &[u8]) -> (Vec<u8>, &'static str) {
+    use wasmparser::{Parser, Payload};
+    let mut code_span: Option<(usize, usize)> = None; // whole section incl. id and size
+    let mut bodies: Vec<(usize, usize, usize)> = vec![]; // body start, end, position after the locals
+    for p in Parser::new(0).parse_all(w) {
+        match p {
+            Ok(Payload::CodeSectionStart { range, .. }) => {
+                // walk back over the size LEB and the id byte
+                let mut q = range.start;
+                let mut lebs = 0;
+                while q > 0 && lebs < 5 {
+                    // the size LEB ends right before range.start; its first byte follows the id 0x0a
+                    q -= 1;
+                    lebs += 1;
+                    if q >= 1 && w[q - 1] == 0x0a {
+                        // candidate: check that the LEB at q decodes to the section length
+                        let (mut v, mut sh, mut k) = (0usize, 0, q);
+                        while k < w.len() {
+                            v |= ((w[k] & 0x7f) as usize) << sh;
+                            sh += 7;
+                            k += 1;
+                            if w[k - 1] & 0x80 == 0 {
+                                break;
+                            }
+                        }
+                        if k == range.start && v == range.end - range.start {
+                            code_span = Some((q - 1, range.end));
+                            break;
+                        }
+                    }
+                }
+            }
+            Ok(Payload::CodeSectionEntry(b)) => {
+                let r = b.range();
+                let after_locals = b.get_operators_reader().map(|o| o.original_position()).unwrap_or(r.start);
+                bodies.push((r.start, r.end, after_locals));
+            }
+            Ok(_) => {}
+            Err(_) => return (w.to_vec(), "none"),
+        }
+    }
+    let (Some((s0, s1)), false) = (code_span, bodies.is_empty()) else { return (w.to_vec(), "none") };
+    let snippets: [&[u8]; 7] = [&[0x41, 0x07, 0x1a], &[0x01], &[0x0b], &[0x41, 0x07], &[0x00], &[0x1a], &[0x01, 0x0b]];
+    let snip = *rng.pick(&snippets);
+    let which = rng.below(bodies.len() as u64) as usize;
+    let place = rng.below(3);
+    let mut content = vec![];
+    leb(bodies.len(), &mut content);
+    for (i, (a, b, al)) in bodies.iter().enumerate() {
+        let mut body = w[*a..*b].to_vec();
+        if i == which {
+            let at = match place {
+                0 => body.len(),
+                1 => body.len() - 1,
+                _ => al - a,
+            };
+            for (k, x) in snip.iter().enumerate() {
+                body.insert(at + k, *x);
+            }
+        }
+        leb(body.len(), &mut content);
+        content.extend_from_slice(&body);
+    }
+    let mut out = w[..s0].to_vec();
+    out.push(0x0a);
+    leb(content.len(), &mut out);
+    out.extend_from_slice(&content);
+    out.extend_from_slice(&w[s1..]);
+    (out, match place { 0 => "operators-after-final-end", 1 => "operators-before-final-end", _ => "operators-at-body-start" })
 }
 
 fn section_spans(w: &[u8]) -> Vec<(usize, usize)> {
